@@ -104,9 +104,9 @@ func (g *goTrans) tr(e ast.Expr) (string, error) {
 					g.imports[tp.Path()] = true
 					return id.Name + "." + x.Sel.Name, nil
 				}
-				if id.Name == "time" {
-					g.imports["time"] = true
-					return "time." + x.Sel.Name, nil
+				if id.Name == "time" || id.Name == "math" {
+					g.imports[id.Name] = true
+					return id.Name + "." + x.Sel.Name, nil
 				}
 			}
 		}
